@@ -262,9 +262,12 @@ def normalization_unit(p, item, tier, seed):
 
 
 # ------------------------------------------------------------------ 4
-def lookup_check(p, name, table, expect_found=None):
-    """get_by_raw_truth_table on a fully defined table."""
+def lookup_check(p, name, table, expect_found=None, as_tuples=False):
+    """get_by_raw_truth_table on a fully defined table (rows given as lists, or as tuples:
+    RawTruthTable is any Sequence[Sequence[bool]])."""
     db = get_db(name)
+    if as_tuples:
+        return _lookup_tuples(p, name, table)
     p.case(("lookup", name, repr(table)), sample=f"{name} look-up {table}" if len(p.samples) < 5 else None)
     src = (REPLAY_PRELUDE + "from checks import c17\n" + f"T={table!r}\nc=c17.get_db({name!r}).get_by_raw_truth_table([list(r) for r in T])\n")
     try:
@@ -297,6 +300,25 @@ def lookup_check(p, name, table, expect_found=None):
     return c
 
 
+def _lookup_tuples(p, name, table):
+    db = get_db(name)
+    tt = tuple(tuple(r) for r in table)
+    p.case(("lookup-tuples", name, repr(tt)), sample=f"{name} look-up with tuple rows {tt}" if len(p.samples) < 7 else None)
+    distinct = {tuple(r) if not r[0] else tuple(not v for v in r) for r in tt}
+    src = (REPLAY_PRELUDE + "from checks import c17\n" + f"T={tt!r}\ntry:\n    c=c17.get_db({name!r}).get_by_raw_truth_table(T)\n"
+           "    bad = c is None or [tuple(r) for r in c.get_truth_table()]!=[tuple(r) for r in T]\nexcept Exception as e:\n    print(type(e).__name__, e); bad=True\n"
+           "print(bad); sys.exit(1 if bad else 0)\n")
+    if len(distinct) > 3:
+        return
+    try:
+        c = db.get_by_raw_truth_table(tt)
+        bad = None if (c is not None and [tuple(r) for r in c.get_truth_table()] == [tuple(r) for r in tt]) else ("nothing returned" if c is None else "wrong function")
+    except Exception as e:  # noqa: BLE001
+        bad = f"{type(e).__name__}: {e}"
+    if bad:
+        p.violation(f"lookup:{name}:tuple-rows:{bad.split(' ')[0].split(':')[0]}", f"look-up of {tt} (tuple rows): {bad}", src)
+
+
 def lookup_unit(p, item, tier, seed):
     kind, name, arg = item
     rnd = random.Random(hash((kind, name, repr(arg))) & 0xFFFFFF)
@@ -323,6 +345,7 @@ def lookup_unit(p, item, tier, seed):
             if rnd.random() < 0.3:
                 table[-1] = [not v for v in table[0]]
             lookup_check(p, name, table)
+            lookup_check(p, name, table, as_tuples=True)
     elif kind == "dont-care":
         db = get_db(name)
         for _ in range(arg):
